@@ -38,6 +38,20 @@ const (
 	runID  = "bbbbbbbbbbbbbbbbbbbbbbbbbbbbbbbbbbbbbbbb"
 )
 
+// what a real target answers when it cannot execute a write right now (server.c / script.c / cluster.c)
+var targetErrors = []string{
+	"ERR injected target failure",
+	"BUSY Redis is busy running a script. You can only call SCRIPT KILL or SHUTDOWN NOSAVE.",
+	"LOADING Redis is loading the dataset in memory",
+	"OOM command not allowed when used memory > 'maxmemory'.",
+	"READONLY You can't write against a read only replica.",
+	"MISCONF Redis is configured to save RDB snapshots, but it's currently unable to persist to disk. Commands that may modify the data set are disabled, because this instance is configured to report errors during writes if RDB snapshotting fails (stop-writes-on-bgsave-error option). Please check the Redis logs for details about the RDB error.",
+	"NOREPLICAS Not enough good replicas to write.",
+	"MASTERDOWN Link with MASTER is down and replica-serve-stale-data is set to 'no'.",
+	"BUSY Redis is busy running a function. You can only call FUNCTION KILL or SHUTDOWN NOSAVE.",
+	"CLUSTERDOWN The cluster is down",
+}
+
 type scenario struct {
 	id       int
 	kind     string // sync | policy | fault
@@ -59,6 +73,7 @@ type scenario struct {
 	flipXor  byte
 	left     int64
 	baseMs   int64
+	oldTgt   bool // the target cannot load the encodings introduced with Redis 7 (RESTORE of such a payload: "Bad data format")
 	bisync   bool // replay through the bidirectional snapshot path (marker + business in one MULTI/EXEC per entry)
 }
 
@@ -519,6 +534,7 @@ type result struct {
 	cp         int64
 	final      []map[string]interface{}
 	badPayload int
+	refused    int
 	dataReqs   int
 	notRepro   bool
 }
@@ -557,6 +573,11 @@ func runScenario(sc *scenario, data []byte) result {
 		e := byKey[string(key)]
 		if e == nil || len(payload) < 10 {
 			res.badPayload++
+			return nil, "Bad data format"
+		}
+		if sc.oldTgt && payload[0] >= 16 {
+			// an older server: the footer is acceptable, the value type is unknown to it (cluster.c restoreCommand)
+			res.refused++
 			return nil, "Bad data format"
 		}
 		body, foot := payload[:len(payload)-10], payload[len(payload)-10:]
@@ -611,7 +632,7 @@ func runScenario(sc *scenario, data []byte) result {
 		srv.PreExec = func(connID int, db int, name string, args [][]byte, inMulti bool) (interface{}, fakeredis.Action) {
 			if isData(name) && len(args) > 0 && !isBook(string(args[0])) {
 				if int(nData.Add(1)) == sc.faultAt {
-					return fakeredis.ErrRep("ERR injected target failure"), fakeredis.Proceed
+					return fakeredis.ErrRep(targetErrors[sc.faultAt%len(targetErrors)]), fakeredis.Proceed
 				}
 			}
 			return nil, fakeredis.Proceed
@@ -783,7 +804,7 @@ func emitScenario(tr *hx.Trace, sc *scenario, res result) {
 		prior = append(prior, map[string]interface{}{"db": db, "key": hexs([]byte(k[i+1:])), "t": t, "v": cv, "exp": exp})
 	}
 	tr.Emit(map[string]interface{}{"ev": "FullSync", "id": sc.id, "kind": sc.kind, "restore": sc.restore, "bulk": sc.bulk, "parallel": sc.parallel,
-		"pipe": sc.pipe, "chunk": sc.chunk, "policy": sc.policy, "version": sc.version, "fault": sc.fault, "faultAt": sc.faultAt,
+		"pipe": sc.pipe, "chunk": sc.chunk, "oldtarget": sc.oldTgt, "policy": sc.policy, "version": sc.version, "fault": sc.fault, "faultAt": sc.faultAt,
 		"left": sc.left, "expect": expect, "prior": prior, "final": res.final, "ret": res.ret, "cp": res.cp, "badpayload": res.badPayload,
 		"notrepro": res.notRepro, "errtext": res.errText, "bisync": sc.bisync})
 }
@@ -880,6 +901,7 @@ func main() {
 			sc.black = []int{1}
 		}
 		sc.bisync = *bisyncPct > 0 && r.Intn(100) < *bisyncPct
+		sc.oldTgt = sc.restore && !sc.bisync && r.Chance(20)
 		wd.Kick(fmt.Sprintf("%s scenario %d", *mode, id))
 		data, err := rdbgen.Build(sc.entries, sc.version, r.Bool())
 		if p := os.Getenv("VERIF_DUMP_RDB"); p != "" && err == nil {
@@ -961,6 +983,10 @@ func main() {
 						continue
 					}
 					f.faultAt = 1 + r.Intn(ref.dataReqs)
+					if f.fault == "targeterr" {
+						// nothing pre-exists on the target: no policy may take the refusal for "the key exists"
+						f.policy = []string{"replace", "ignore", "error"}[r.Intn(3)]
+					}
 					if f.fault == "cancel" {
 						f.pipe = []int{1, 2, 1024}[r.Intn(3)]
 					}
